@@ -16,6 +16,10 @@ type c04Case struct {
 	Direct     bool
 	N          int  // number of AppendSample calls
 	Sparse     bool // long buffers: full comparison every 97 calls (and at the end), cheap comparison otherwise
+	// ValPass: special values (both zeros, infinities, bounds) appended over storage holding the same
+	// values rotated by Shift, compared by bit pattern (valpass.go); only Type, C and Shift matter
+	ValPass bool `json:"val_pass,omitempty"`
+	Shift   int  `json:"shift,omitempty"`
 }
 
 func c04Run(cs c04Case) []F {
@@ -24,6 +28,9 @@ func c04Run(cs c04Case) []F {
 
 func c04RunRaw(cs c04Case) (fs []F) {
 	t := typeByName(cs.Type)
+	if cs.ValPass {
+		return valAppendSample(t, cs.C, cs.Shift)
+	}
 	fail := func(kind, format string, a ...any) {
 		fs = append(fs, core.Failf("AppendSample/"+kind, "%+v: %s", cs, fmt.Sprintf(format, a...)))
 	}
@@ -128,6 +135,19 @@ func init() {
 					cases = append(cases, c04Case{Type: tn(t), C: C, P: 3, S: 1, L: 0, N: 2*C + 5})
 				}
 			}
+			// more than 2^24 samples (single-precision arithmetic and 24-bit fields stop being exact): a nearly
+			// full window of such a buffer, filled sample by sample to the end and beyond
+			for _, cp := range [][2]int{{1, 1<<24 + 8}, {2, 1<<23 + 6}, {3, (1<<24)/3 + 9}, {5, (1<<24)/5 + 7}} {
+				C, P := cp[0], cp[1]
+				cases = append(cases, c04Case{Type: "int8", C: C, P: P, S: 0, L: P - 3, N: 3*C + 4, Sparse: true})
+			}
+			for _, t := range valTypes() { // special values, by bit pattern
+				for C := 1; C <= 3; C++ {
+					for sh := 0; sh < len(valSpecials(t)); sh++ {
+						cases = append(cases, c04Case{Type: tn(t), C: C, ValPass: true, Shift: sh, N: C * ((len(valSpecials(t)) + C - 1) / C), P: 1})
+					}
+				}
+			}
 			var calls int64
 			for _, cs := range cases {
 				calls += int64(cs.N)
@@ -146,7 +166,7 @@ func init() {
 			c.Set("evaluations", calls)
 			c.Sample(cases[57])
 			c.Sample(cases[len(cases)-1])
-			c.Set("rule", fmt.Sprintf("13 element types x C in 1..4 x storage of P in 0..4 frames x window start S x initial length L (windows of a larger buffer, and direct Alloc(C,L,P)); each history is spare capacity + %d AppendSample calls, checked after every call against the views model (state = Len; transition = one call); non-trivial = has spare capacity; plus storages of 16 and 100 frames for 4 element types, 1500-frame storages (thousands of calls, full comparison every 97th call) and every channel count 5..70 on short buffers for 3 types", extra))
+			c.Set("rule", fmt.Sprintf("13 element types x C in 1..4 x storage of P in 0..4 frames x window start S x initial length L (windows of a larger buffer, and direct Alloc(C,L,P)); each history is spare capacity + %d AppendSample calls, checked after every call against the views model (state = Len; transition = one call); non-trivial = has spare capacity; plus storages of 16 and 100 frames for 4 element types, 1500-frame storages (thousands of calls, full comparison every 97th call) and every channel count 5..70 on short buffers for 3 types; and, for all 39 element types of the facade (built-in, named, same-named), every special value (both zeros, infinities, largest/smallest magnitudes, integer bounds) appended over a cell holding every other one, compared by bit pattern", extra))
 			c.Assume("storage identity is observed by aliasing (a full-capacity view taken before the first call and the root buffer), not by address")
 		},
 		RunCase: func(c *core.Ctx, raw json.RawMessage) []F { return c04Run(decode[c04Case](raw)) },
